@@ -5,8 +5,8 @@ import BadgerModel.Lsm
 
 The heuristic part of the pickers (which eligible table is tried first, sizes, ages, scores) is
 not modelled; the *structural* part is, exactly:
-* L0→Lbase takes the longest prefix of L0 (oldest first) whose key ranges chain-overlap — all of
-  L0 when prefixes are being dropped — and, from the base level, exactly the tables whose range
+* L0→Lbase takes the longest prefix of L0 whose key ranges chain-overlap — all of L0 when prefixes
+  are being dropped or when a table behind that prefix overlaps its range (F28) — and, from the base level, exactly the tables whose range
   intersects the range of those;
 * Li→Li+1 takes one table and exactly the intersecting run of the next level;
 * L0→L0 takes at least four L0 tables and nothing else;
@@ -24,6 +24,20 @@ def l0PrefixLen : List Tbl → Option (Bytes × Bytes) → Nat
     match t.keyRange with
     | none => 0
     | some d => if rangeOverlaps kr d then 1 + l0PrefixLen ts (rangeExtend kr d) else 0
+
+/-- an L0 table with a user-key range overlapping `kr` -/
+def overlapsRange (kr : Option (Bytes × Bytes)) (t : Tbl) : Bool :=
+  match t.keyRange with
+  | some d => rangeOverlaps kr d
+  | none => false
+
+/-- `fillTablesL0ToLbase` after the F28 repair: the chain-overlapping prefix, unless an L0 table
+    behind it overlaps the range of the prefix — then ALL of L0 (L0 is not always in age order:
+    `Open` sorts it by file id and the output of an L0 → L0 compaction gets a new id although it holds
+    the oldest data; a table left behind must not share a key range with the tables moved down). -/
+def l0PickLen (l0 : List Tbl) : Nat :=
+  let n := l0PrefixLen l0 none
+  if (l0.drop n).any (overlapsRange (rangeOfTables (l0.take n))) then l0.length else n
 
 /-- `overlappingTables(kr)` on a sorted level: indices `[left, right)`. -/
 def overlapIdx (tbls : List Tbl) (kr : Option (Bytes × Bytes)) : List Nat :=
@@ -54,11 +68,11 @@ def choiceProblem (s : Lsm) (cd : CompactDef) : Option String :=
     else if cd.top.length < 4 then some s!"L0->L0 of {cd.top.length} tables (needs 4)"
     else none
   else if cd.thisLevel == 0 then
-    let n := if cd.dropPrefixes.isEmpty then l0PrefixLen thisT none else thisT.length
+    let n := if cd.dropPrefixes.isEmpty then l0PickLen thisT else thisT.length
     let wantTop := List.range n
     let wantBot := overlapIdx nextT (rangeOfTables tops)
     let between := ((List.range cd.nextLevel).drop 1).any (fun j => !(s.levels.getD j []).isEmpty)
-    if cd.top != wantTop then some s!"L0->Lbase top={cd.top} expected the overlapping prefix {wantTop}"
+    if cd.top != wantTop then some s!"L0->Lbase top={cd.top} expected {wantTop} (the overlapping prefix, or all of L0 if a table behind it overlaps)"
     else if cd.bot != wantBot then some s!"L0->Lbase bot={cd.bot} expected {wantBot}"
     else if between then some s!"L0->L{cd.nextLevel} jumps over a non-empty level"
     else none
